@@ -34,7 +34,7 @@ import (
 func sessionTextKey(s *Session, obsKey string) string {
 	var si, di int
 	sk := func(i int) string {
-		return schemaKeyText(s.Schemas[i].Name, s.Schemas[i].Text, cutsOf(s, i), s.SplitSameName)
+		return schemaKeyText(s.Schemas[i].Name, s.Schemas[i].Text, cutsOf(s, i), s.SplitSameName, s.SplitBuiltIn)
 	}
 	switch {
 	case strings.HasPrefix(obsKey, "L|"):
@@ -50,10 +50,10 @@ func sessionTextKey(s *Session, obsKey string) string {
 
 // schemaKeyText: the schema half of a key: name, text and how the text is cut
 // into sources (positions and file names in errors depend on it).
-func schemaKeyText(name, text string, cuts []int, sameName bool) string {
+func schemaKeyText(name, text string, cuts []int, sameName, builtIn bool) string {
 	k := name + "\x00" + text
 	if len(cuts) > 0 {
-		k += fmt.Sprintf("\x00cuts=%v same=%v", cuts, sameName)
+		k += fmt.Sprintf("\x00cuts=%v same=%v builtin=%v", cuts, sameName, builtIn)
 	}
 	return k
 }
@@ -116,7 +116,7 @@ func runSessionsOracle(sessions []*Session, key *isoKey) (string, *Witness) {
 	}
 	var keyObsd []keyObs
 	if key != nil {
-		keyText = key.Kind + "\x00" + schemaKeyText(key.SchemaName, key.Schema, key.Cuts, key.SameName)
+		keyText = key.Kind + "\x00" + schemaKeyText(key.SchemaName, key.Schema, key.Cuts, key.SameName, key.BuiltIn)
 		if key.Kind == "V" {
 			keyText += "\x00" + key.DocName + "\x00" + key.Doc
 		}
@@ -413,7 +413,7 @@ func c10HistoryWitnessMain(args []string) {
 		// the key alone is the witness: load, validate, validate again through
 		// the other entry point, all in one fresh process
 		sess := &Session{Seed: m.Key.Session, Source: "isolated-key", Explicit: true,
-			Schemas: []NamedText{{m.Key.SchemaName, m.Key.Schema}}, Splits: [][]int{m.Key.Cuts}, SplitSameName: m.Key.SameName}
+			Schemas: []NamedText{{m.Key.SchemaName, m.Key.Schema}}, Splits: [][]int{m.Key.Cuts}, SplitSameName: m.Key.SameName, SplitBuiltIn: m.Key.BuiltIn}
 		if m.Key.Kind == "L" {
 			sess.Ops = []Op{{Kind: "load", S: 0}, {Kind: "load", S: 0}}
 		} else {
@@ -557,6 +557,6 @@ func c10KeyMain(args []string) {
 		fatal(2, "c10-key: no such schema in this session")
 	}
 	k.SchemaName, k.Schema = s.Schemas[si].Name, s.Schemas[si].Text
-	k.Cuts, k.SameName = cutsOf(s, si), s.SplitSameName
+	k.Cuts, k.SameName, k.BuiltIn = cutsOf(s, si), s.SplitSameName, s.SplitBuiltIn
 	writeJSON("-", k)
 }
